@@ -162,10 +162,21 @@ func (vm *VM) SetReturnValue(value Element) {
 	}
 }
 
-func (vm *VM) BeginScope() {
+func (vm *VM) BeginScope() *Scope {
 	scope := vm.getCurrentScope()
 	if scope != nil {
 		scope.BeginScope()
+	}
+	return scope
+}
+
+// EndScopeOf - end the block that BeginScope opened, on exactly that scope.
+// While an error propagates the frame of the failed call is still on the call
+// stack, so the "current" scope may be the callee module's (or the native
+// module's) - ending a block there would leave the caller's block open.
+func (vm *VM) EndScopeOf(scope *Scope) {
+	if scope != nil {
+		scope.EndScope()
 	}
 }
 
